@@ -211,3 +211,163 @@ Proof.
       * intros Ec. destruct (Hrst Ec) as (N0 & _). exact N0.
     + intros Hc. destruct (Hwin Hc) as (W1 & _). rewrite W1. exact Hsw.
 Qed.
+
+(* ------------------------------------------------------------------------------------------ *)
+(* layer 5: every history                                                                       *)
+(* ------------------------------------------------------------------------------------------ *)
+Definition seg_claims (cx : ctx) (g : ghost) (s : socket) (p : packet) : Prop :=
+  let r := snd p in
+  let n := l_len (r_payload r) in
+  ((exists s1, frame s s1 /\ is_keep_alive_seg s1 cx r) \/
+   (0 < n \/ r_control r = CFin -> data_seg_ok cx g s p) /\
+   (r_control r = CSyn -> n = 0 /\ r_seq_number r = sq (g_iss g) /\ g_phase g = PSyn /\
+                          r_window_len r = u16_try (rb_window (s_rx_buffer s))) /\
+   (r_control r = CRst -> n = 0)) /\
+  (r_control r <> CSyn -> r_window_len r = tcp_scaled_window s).
+
+Definition step_claims (cx : ctx) (g : ghost) (s : socket) (ev : event) (out : step_out) : Prop :=
+  match ev, out with
+  | EvDispatch _, ODispatch res => forall p, disp_pkt res = Some p -> seg_claims cx g s p
+  | _, _ => True
+  end.
+
+(* along a history: each step's emitted segment satisfies the claims relative to the ghost of that
+   moment, and consecutive ghosts are related by [ghost_rel] (same epoch: same ISS, the stream only
+   grows by what send accepted, acked only grows; or a new connection) *)
+Fixpoint hist_ok (g : ghost) (s : socket) (evs : list (ctx * event)) : Prop :=
+  match evs with
+  | [] => True
+  | (cx, ev) :: rest =>
+      match tcp_step cx s ev with
+      | Ok (s', out, _) =>
+          step_claims cx g s ev out /\
+          exists g', inv g' s' /\ ghost_rel g g' /\ hist_ok g' s' rest
+      | _ => True
+      end
+  end.
+
+Theorem tx_all_histories : forall evs g s,
+  inv g s -> Forall (fun ce => ctx_ok (fst ce) /\ tx_ev_ok (snd ce)) evs -> hist_ok g s evs.
+Proof.
+  induction evs as [|[cx ev] rest IH]; intros g s Hinv Hall; cbn [hist_ok]; [exact I|].
+  inversion Hall as [|x l (Hcx & Hev) Hrest]; subst. cbn [fst snd] in Hcx, Hev.
+  destruct (tcp_step cx s ev) as [[[s' out] tags]| |] eqn:E; try exact I.
+  destruct (tx_step_inv _ _ _ _ _ _ _ Hinv Hcx Hev E) as (g' & Hinv' & Hrel).
+  split.
+  - unfold step_claims. destruct ev; try exact I. destruct out; try exact I.
+    intros p Hp. cbn [tcp_step] in E.
+    destruct (tcp_dispatch cx s emit_ok) as [[[s1 rs] tg]| |] eqn:Ed; cbn [obind] in E; try discriminate.
+    injection E as <- <- <-.
+    exact (dispatch_segments _ _ _ _ _ _ _ _ Hinv Hcx Ed Hp).
+  - exists g'. split; [exact Hinv'|]. split; [exact Hrel|]. apply IH; assumption.
+Qed.
+
+(* "never alters data": within an epoch the stream only grows at its end, so a byte once sent at a
+   stream offset is the byte every later (re)transmission carries at that offset *)
+Lemma same_epoch_trans : forall a b c, same_epoch a b -> same_epoch b c -> same_epoch a c.
+Proof.
+  intros a b c (A1 & (m1 & A2) & A3 & A4 & A5) (B1 & (m2 & B2) & B3 & B4 & B5).
+  unfold same_epoch. split; [congruence|]. split; [exists (m1 ++ m2); rewrite B2, A2, app_assoc; reflexivity|].
+  split; [lia|]. split; [lia|]. intros G. destruct (A5 G) as (G1 & S1). destruct (B5 G1) as (G2 & S2).
+  split; [exact G2|congruence].
+Qed.
+
+Lemma same_epoch_slice : forall g g' k n, same_epoch g g' -> 0 <= k -> 0 <= n ->
+  k + n <= l_len (g_stream g) -> l_slice k n (g_stream g') = l_slice k n (g_stream g).
+Proof.
+  intros g g' k n (_ & (m & E) & _) Hk Hn Hle. rewrite E. apply znth_ext.
+  - rewrite !l_len_slice; try lia. rewrite l_len_app. pose proof (l_len_nonneg m). lia.
+  - intros i Hi. rewrite l_len_slice in Hi; [|lia|lia|rewrite l_len_app; pose proof (l_len_nonneg m); lia].
+    rewrite !znth_slice by lia. rewrite znth_app by lia.
+    destruct (Z.ltb_spec (k + i) (l_len (g_stream g))); [reflexivity|lia].
+Qed.
+
+(* running a list of events *)
+Fixpoint tcp_run (s : socket) (evs : list (ctx * event)) : outcome (socket * list step_out) :=
+  match evs with
+  | [] => Ok (s, [])
+  | (cx, ev) :: rest =>
+      do x <- tcp_step cx s ev;
+      let '(s', out, _) := x in
+      do y <- tcp_run s' rest;
+      let '(s'', outs) := y in
+      Ok (s'', out :: outs)
+  end.
+
+Theorem tx_invariant_preserved : forall evs g s s' outs,
+  inv g s -> Forall (fun ce => ctx_ok (fst ce) /\ tx_ev_ok (snd ce)) evs ->
+  tcp_run s evs = Ok (s', outs) -> exists g', inv g' s'.
+Proof.
+  induction evs as [|[cx ev] rest IH]; intros g s s' outs Hinv Hall H; cbn [tcp_run] in H.
+  - injection H as <- <-. eauto.
+  - inversion Hall as [|x l (Hcx & Hev) Hrest]; subst. cbn [fst snd] in Hcx, Hev.
+    destruct (tcp_step cx s ev) as [[[s1 out] tags]| |] eqn:E; cbn [obind] in H; try discriminate.
+    destruct (tx_step_inv _ _ _ _ _ _ _ Hinv Hcx Hev E) as (g1 & Hinv1 & _).
+    destruct (tcp_run s1 rest) as [[s2 outs2]| |] eqn:E2; cbn [obind] in H; try discriminate.
+    injection H as <- <-. eapply IH; eassumption.
+Qed.
+
+(* ------------------------------------------------------------------------------------------ *)
+(* non-vacuity: a reachable ESTABLISHED socket with data in flight                              *)
+(* ------------------------------------------------------------------------------------------ *)
+Definition ex_cx (now : Z) : ctx := mkCtx now 1500 167772161 0 1000.
+Definition ex_ip : ip_repr := mkIp 167772162 167772161 64 0.
+Definition ex_synack : tcp_repr :=
+  mkRepr 80 49500 CSyn 5000 (Some 1001) 30 None (Some 100) false no_sack None [].
+Definition ex_ack (a win : Z) : tcp_repr :=
+  mkRepr 80 49500 CNone 5001 (Some a) win None None false no_sack None [].
+Definition ex_events : list (ctx * event) :=
+  [ (ex_cx 0, EvConnect 167772162 80 (mkListenEp None 49500));
+    (ex_cx 0, EvDispatch true);                                   (* SYN *)
+    (ex_cx 1000, EvSegment ex_ip ex_synack);                      (* SYN|ACK: window 30, MSS 100 *)
+    (ex_cx 1000, EvSend [11; 12; 13; 14; 15; 16; 17; 18; 19; 20; 21; 22]);
+    (ex_cx 2000, EvDispatch true);                                (* ACK + 12 bytes *)
+    (ex_cx 3000, EvSegment ex_ip (ex_ack 1005 4));                (* 4 bytes acked, window shrinks to 4 *)
+    (ex_cx 3000, EvSend [23; 24; 25]) ].
+
+Definition ex_dummy : socket :=
+  mkSocket Closed timer_new rtte_default asm_new (rb_new []) false (rb_new [])
+        None None None (mkListenEp None 0) None
+        0 0 0 None 0 0 0 None false 0 None None None 0 false false
+        None ADIdle 0 true CcNone false 0.
+
+Definition ex_s0 : socket :=
+  Eval vm_compute in
+    match tcp_new (repeat 0 64) (repeat 0 16) (CcReno reno_new) false with Ok s => s | _ => ex_dummy end.
+
+Definition ex_s : socket :=
+  Eval vm_compute in match tcp_run ex_s0 ex_events with Ok (s, _) => s | _ => ex_dummy end.
+
+Lemma ex_s0_new : tcp_new (repeat 0 64) (repeat 0 16) (CcReno reno_new) false = Ok ex_s0.
+Proof. vm_compute. reflexivity. Qed.
+
+Lemma ex_s_run : exists outs, tcp_run ex_s0 ex_events = Ok (ex_s, outs).
+Proof. vm_compute. eexists. reflexivity. Qed.
+
+Lemma ex_s_inv : exists g, inv g ex_s.
+Proof.
+  destruct ex_s_run as (outs & E1).
+  eapply (tx_invariant_preserved ex_events ghost0 ex_s0); [| |exact E1].
+  - eapply new_inv; [exact ex_s0_new|]. vm_compute. discriminate.
+  - unfold ex_events, ex_cx, ctx_ok, tx_ev_ok, repr_ok.
+    repeat (constructor; [cbn; repeat split; try exact I; try lia; try (vm_compute; discriminate)|]).
+    constructor.
+Qed.
+
+Example c05_example :
+    s_state ex_s = Established /\ rb_len (s_tx_buffer ex_s) = 11 /\
+    s_local_seq_no ex_s = 1005 /\ s_remote_last_seq ex_s = 1013 /\ s_remote_win_len ex_s = 4 /\
+    s_remote_mss ex_s = 100 /\
+    (exists g, inv g ex_s) /\
+    (* 8 bytes are in flight beyond the shrunk window of 4: the next dispatch sends nothing *)
+    (exists s' tags, tcp_dispatch (ex_cx 4000) ex_s true = Ok (s', DNothing, tags)) /\
+    (* after a retransmission timeout the socket resends exactly the 4 bytes the window admits,
+       with the original content *)
+    (exists s' p tags, tcp_dispatch (ex_cx 2000000) ex_s true = Ok (s', DSent p, tags) /\
+                       r_seq_number (snd p) = 1005 /\ r_payload (snd p) = [15; 16; 17; 18]).
+Proof.
+  do 6 (split; [vm_compute; reflexivity|]).
+  split; [exact ex_s_inv|]. split.
+  - vm_compute. do 2 eexists. reflexivity.
+  - vm_compute. do 3 eexists. repeat split; reflexivity.
+Qed.
